@@ -354,7 +354,7 @@ func (r *Runtime) arrayproto_slice(call FunctionCall) Value {
 	}
 
 	a := arraySpeciesCreate(o, count)
-	if src := r.checkStdArrayObj(o); src != nil {
+	if src := r.checkStdArrayObjLen(o, length); src != nil {
 		if dst := r.checkStdArrayObjWithProto(a); dst != nil {
 			values := make([]Value, count)
 			copy(values, src.values[start:])
@@ -447,7 +447,7 @@ func (r *Runtime) arrayproto_splice(call FunctionCall) Value {
 		panic(r.NewTypeError("Invalid array length"))
 	}
 	a := arraySpeciesCreate(o, actualDeleteCount)
-	if src := r.checkStdArrayObj(o); src != nil {
+	if src := r.checkStdArrayObjLen(o, length); src != nil {
 		if dst := r.checkStdArrayObjWithProto(a); dst != nil {
 			values := make([]Value, actualDeleteCount)
 			copy(values, src.values[actualStart:])
@@ -607,7 +607,7 @@ func (r *Runtime) arrayproto_indexOf(call FunctionCall) Value {
 
 	searchElement := call.Argument(0)
 
-	if arr := r.checkStdArrayObj(o); arr != nil {
+	if arr := r.checkStdArrayObjLen(o, length); arr != nil {
 		for i, val := range arr.values[n:] {
 			if searchElement.StrictEquals(val) {
 				return intToValue(n + int64(i))
@@ -651,7 +651,7 @@ func (r *Runtime) arrayproto_includes(call FunctionCall) Value {
 		searchElement = _positiveZero
 	}
 
-	if arr := r.checkStdArrayObj(o); arr != nil {
+	if arr := r.checkStdArrayObjLen(o, length); arr != nil {
 		for _, val := range arr.values[n:] {
 			if searchElement.SameAs(val) {
 				return valueTrue
@@ -693,7 +693,7 @@ func (r *Runtime) arrayproto_lastIndexOf(call FunctionCall) Value {
 
 	searchElement := call.Argument(0)
 
-	if arr := r.checkStdArrayObj(o); arr != nil {
+	if arr := r.checkStdArrayObjLen(o, length); arr != nil {
 		vals := arr.values
 		for k := fromIndex; k >= 0; k-- {
 			if v := vals[k]; v != nil && searchElement.StrictEquals(v) {
@@ -1056,7 +1056,7 @@ func (r *Runtime) arrayproto_copyWithin(call FunctionCall) Value {
 	}
 	final := relToIdx(relEnd, l)
 	count := min(final-from, l-to)
-	if arr := r.checkStdArrayObj(o); arr != nil {
+	if arr := r.checkStdArrayObjLen(o, l); arr != nil {
 		if count > 0 {
 			copy(arr.values[to:to+count], arr.values[from:from+count])
 		}
@@ -1099,7 +1099,7 @@ func (r *Runtime) arrayproto_fill(call FunctionCall) Value {
 	}
 	final := relToIdx(relEnd, l)
 	value := call.Argument(0)
-	if arr := r.checkStdArrayObj(o); arr != nil {
+	if arr := r.checkStdArrayObjLen(o, l); arr != nil {
 		for ; k < final; k++ {
 			arr.values[k] = value
 		}
@@ -1375,7 +1375,7 @@ func (r *Runtime) arrayproto_toSpliced(call FunctionCall) Value {
 		panic(r.NewTypeError("Invalid array length"))
 	}
 
-	if src := r.checkStdArrayObj(o); src != nil {
+	if src := r.checkStdArrayObjLen(o, length); src != nil {
 		var values []Value
 		if itemCount == actualSkipCount {
 			values = make([]Value, len(src.values))
@@ -1430,6 +1430,16 @@ func (r *Runtime) checkStdArrayObj(obj *Object) *arrayObject {
 		return arr
 	}
 
+	return nil
+}
+
+// checkStdArrayObjLen is checkStdArrayObj for callers that read the length before coercing their
+// arguments: user code run by a coercion may have resized the array, in which case the fast path
+// (which indexes arr.values with offsets derived from the old length) must not be taken.
+func (r *Runtime) checkStdArrayObjLen(obj *Object, length int64) *arrayObject {
+	if arr := r.checkStdArrayObj(obj); arr != nil && int64(arr.length) == length {
+		return arr
+	}
 	return nil
 }
 
